@@ -226,7 +226,8 @@ def strategy(tier="quick"):
             case = dict(case)
             case["cmodes"] = {k: ("fut" if m == "coro" else m) for k, m in case["cmodes"].items()}
         return case
-    return mdcommon.md_case(tier, faults=False, modes=("sync", "sync", "sync", "fut", "coro")).map(
+    return mdcommon.md_case(tier, faults=False, modes=("sync", "sync", "sync", "fut", "coro"),
+                            none_ok=True).map(
         no_orphan_coroutines)
 
 
